@@ -86,10 +86,12 @@ def work_contract(job):
             rec['wall_s'] = time.time() - t0
             return rec
         rec['paths'] = len(res['paths'])
+        rec['ghost_defs'] = res.get('ghost_defs', [])
         rec['path_outcomes'] = sorted(set(p['outcome'] for p in res['paths']))
         rec['gen_s'] = res['gen_s']
         rec['trivial'] = eng.trivial
-        fallback_spent, fallback_budget = 0.0, (90.0 if tier == 'quick' else 1500.0)     # cvc5 seconds per contract (shard) on obligations z3 left open
+        n_open = 0
+        fallback_spent, fallback_budget = 0.0, (120.0 if tier == 'quick' else 1800.0)     # seconds per contract (shard) for portfolio / candidate search / cvc5 on obligations z3 left open
         direct_hit = {}       # clause name -> replayed failure (input-independent replays are run once per clause)
         for oi, o in enumerate(res['obls']):
             if oi % nshards != shard:
@@ -100,8 +102,11 @@ def work_contract(job):
                 orec['path'] = o.path_id
                 rec['obls'].append(orec)
                 continue
-            d = discharge(o, tier, second_opinion=(tier == 'thorough'), cvc5_ok=(fallback_spent < fallback_budget))
+            # a contract with many open obligations (a changed function body): the rest gets one cheap attempt each
+            d = discharge(o, tier, second_opinion=(tier == 'thorough'), cvc5_ok=(fallback_spent < fallback_budget and n_open < 8), rl_div=(8 if n_open >= 8 else 1))
             fallback_spent += d.get('cvc5_fallback_seconds', 0) or 0
+            if d['status'] != 'proved':
+                n_open += 1
             orec = {'name': o.name, 'kind': o.kind, 'status': d['status'], 'backend': d['backend'], 'seconds': round(d['seconds'], 4),
                     'quantified': d['quantified'], 'path': o.path_id, 'props': props_of_obl(o.name, c.props), 'size': o.size(),
                     'lineno': o.lineno, 'cvc5': d.get('cvc5')}
@@ -302,7 +307,8 @@ def conclude(a, prop, recs, assumed, R, seed, t0):
         if r.get('kind') == 'contract':
             funcs.append({'contract': r['task'], 'function': r.get('key'), 'sha256': r.get('sha256'), 'lines': r.get('lines'),
                           'paths': r.get('paths'), 'obligations': len([o for o in r['obls'] if prop in o['props']]),
-                          'gen_s': round(r.get('gen_s', 0), 3), 'wall_s': round(r['wall_s'], 3), 'runtime_cross_check': r.get('cross_check')})
+                          'gen_s': round(r.get('gen_s', 0), 3), 'wall_s': round(r['wall_s'], 3), 'runtime_cross_check': r.get('cross_check'),
+                          'assumed_ghost_definitions': r.get('ghost_defs') or []})
             if not r.get('unsupported') and r.get('paths', 0) == 0:
                 errors.append((r['task'], 'zero paths explored'))
         if r.get('kind') == 'bounded' and r.get('bounded') is not None:
@@ -390,7 +396,7 @@ def conclude(a, prop, recs, assumed, R, seed, t0):
         if a.repo != '/repo':
             fn = os.path.join('replays', f'{prop}_{vi}.scratch.json')
         with open(os.path.join(VERIF, fn), 'w') as f:
-            json.dump({'property': prop, 'task': v['task'], 'obligation': v['name'], 'kind': v['kind'], 'detail': v.get('detail'),
+            json.dump({'property': prop, 'task': v['task'], 'obligation': v['name'], 'kind': v['kind'], 'detail': v.get('detail'), 'seed': seed, 'tier': a.tier,
                        'witness': v.get('witness'), 'solver_output': v.get('model'), 'input': v.get('input'), 'replayed': v['replayed'],
                        'path': v.get('path')}, f, indent=1, default=str)
         tail = '' if v['replayed'] else ' no-failing-input-found'
@@ -432,8 +438,11 @@ def write_evidence(a, prop, recs, assumed, R, seed, wall, n_obl, n_proved, viola
         'undecided': [f'{t}: {u}'[:300] for t, u in undecided],
         'explanation': contracts.EXPLAIN.get(prop, ''),
         'evaluations': n_obl + sum(b.get('cases') or 0 for b in bounded),
-        'distinct_nontrivial': max(2, n_obl),
-        'rule': 'one evaluation = one named proof obligation generated from the current source (path x clause), plus the cases of the bounded stand-ins (listed separately, never counted as discharged)',
+        'distinct_nontrivial': len({(r.get('task'), o['name']) for r in recs for o in r.get('obls', []) if prop in o.get('props', []) and o.get('backend') in ('z3', 'cvc5', 'ast', 'cpython')})
+                               + sum(b.get('distinct') or 0 for b in bounded),
+        'rule': 'one evaluation = one named proof obligation generated from the current source (execution path x clause), plus the cases of the bounded stand-ins (listed separately, '
+                'never counted as discharged). distinct_nontrivial counts DISTINCT (contract, clause) pairs whose obligation needed a solver or an AST decision on at least one path '
+                '(obligations that folded to true by term simplification while the path was executed are trivial; the same clause on several paths counts once), plus the distinct inputs of the bounded families',
     }
     ev = {'property_id': prop, 'tier': a.tier, 'seed': seed, 'level': level, 'coverage': cov,
           'assumptions': TRUSTED_BASE + [f'assumed contract: {c.id} - {c.note}' for c in assumed],
